@@ -115,6 +115,32 @@ def responses_tie(ctx):
     ctx.count("responses_tie_cases", len(mlines))
 
 
+# concat: the path is the concatenation, the query parameters are those of the right operand only (Uri::append)
+CONCAT = [
+    ("let collection = /items?{ 'page int, 'sort! str };\nlet item = concat collection /{ 'id str };\nres item on get -> <{ 'name str }>;\nres collection on get -> <>;\n"
+     "res (concat collection /search?{ 'q! str }) on get -> <>;\n",
+     {"/items/{id}": [("path", "id")], "/items": [("query", "page"), ("query", "sort")], "/items/search": [("query", "q")]}),
+    ("let a = /a/{ 'x int }?{ 'p str };\nlet b = /b?{ 'q str };\nres (concat a b) on get -> <>;\nres (concat b a) on get -> <>;\n",
+     {"/a/{x}/b": [("path", "x"), ("query", "q")], "/b/a/{x}": [("path", "x"), ("query", "p")]}),
+]
+
+
+def concat_cases(ctx):
+    from . import progs as _p
+    ps = [{"mods": {"file:///w/main.oal": t}, "main": "file:///w/main.oal"} for t, _ in CONCAT]
+    for (t, want), r in zip(CONCAT, _p.compile_many(ps)):
+        ctx.cov["evaluations"] += 1
+        inp = {"program": {"mods": {"file:///w/main.oal": t}, "main": "file:///w/main.oal"}}
+        if r.get("status") != "ok":
+            ctx.violation("a program concatenating URI templates is not compiled", inp, "ok", str(r.get("msg"))[:200])
+            continue
+        got = {k: sorted((q["in"], q["name"]) for q in (v.get("parameters") or [])) for k, v in (r["doc"].get("paths") or {}).items()}
+        exp = {k: sorted(v) for k, v in want.items()}
+        if got != exp:
+            ctx.violation("the path items of concatenated URI templates do not carry exactly the parameters the source denotes "
+                          "(path variables of both operands, query parameters of the right operand)", inp, exp, got)
+
+
 def check(ctx):
     ctx.proof = core.proof_stage("C02", thorough=ctx.thorough)
     ok, out = core.ensure_harness()
@@ -147,6 +173,7 @@ def check(ctx):
         'let wrap x = { \'data! x `title: "Envelope payload"`, \'n num };\n# title: "Customer name"\nlet name = str;\nres /w on get -> <wrap name>;\n',
         'let f x y = { \'first x, \'second y };\nlet g y x = f y x;\nres /g on get -> <g num str> :: <status=404, (g [num] { \'k bool })>;\n',
     ]
+    concat_cases(ctx)
     evaltie.run(ctx, ps[: (3600 if ctx.thorough else 250)] + [{"mods": {"file:///main.oal": t}, "main": "file:///main.oal"} for t in extra]
                 + evaltie.known_witnesses() + evaltie.repo_corpus())
     res = progs.compile_many(ps)
